@@ -265,22 +265,22 @@ func (rsc *service) updatePodGPUGroup(
 }
 
 func (rsc *service) RemovePodGpuGroupsConnection(ctx context.Context, pod *v1.Pod) error {
-	var patch []map[string]string
+	// A JSON merge patch with null values removes the labels that exist and ignores the ones that do
+	// not (a JSON-patch "remove" of a label that never reached the API server fails the whole patch
+	// and leaves the other GPU group labels - and their reservation pods - behind).
+	labels := map[string]interface{}{}
 	for labelKey := range pod.Labels {
 		if labelKey == constants.GPUGroup || strings.HasPrefix(labelKey, constants.MultiGpuGroupLabelPrefix) {
-			patch = append(patch, map[string]string{
-				"op":   "remove",
-				"path": fmt.Sprintf("/metadata/labels/%s", escapeJSONPointer(labelKey)),
-			})
+			labels[labelKey] = nil
 		}
 	}
 
-	patchBytes, err := json.Marshal(patch)
+	patchBytes, err := json.Marshal(map[string]interface{}{"metadata": map[string]interface{}{"labels": labels}})
 	if err != nil {
 		return fmt.Errorf("failed to generate a patch for pod gpu-group removal. %w", err)
 	}
 
-	if err := rsc.kubeClient.Patch(ctx, pod, client.RawPatch(types.JSONPatchType, patchBytes)); err != nil {
+	if err := rsc.kubeClient.Patch(ctx, pod, client.RawPatch(types.MergePatchType, patchBytes)); err != nil {
 		return err
 	}
 	return nil
